@@ -17,6 +17,9 @@ mod c01;
 mod c02;
 mod c03;
 mod c04;
+mod c05;
+mod c06;
+mod c10;
 mod cli;
 mod edits;
 mod ctx;
@@ -56,6 +59,10 @@ fn main() {
             }
         }
     }
+    if args[1] == "golden-gen" {
+        c06::golden_gen();
+        return;
+    }
     let prop = args[1].clone();
     let mut tier = match args.get(2).map(|s| s.as_str()) {
         Some("thorough") => Tier::Thorough,
@@ -89,6 +96,9 @@ fn main() {
         "C02" => c02::run(&ctx),
         "C03" => c03::run(&ctx),
         "C04" => c04::run(&ctx),
+        "C05" => c05::run(&ctx),
+        "C06" => c06::run(&ctx),
+        "C10" => c10::run(&ctx),
         _ => {
             eprintln!("kmon: unknown property {}", prop);
             std::process::exit(2);
